@@ -159,7 +159,8 @@ def _uninit(k, c): raise Violation('uninit-output', 'output word [%d][%d] was ne
 
 def finish(w, it, this):
     it.call(DT, [Ptr(this, 0)])
-    if w.heap: raise Violation('leak', '%d heap block(s) still allocated after the destructor: %s' % (len(w.heap), [o.name for o in w.heap.values()][:4]))
+    # blocks still allocated after the destructor are not a violation of any property (the library may keep process-lifetime caches); noted only
+    if w.heap: w.notes = getattr(w, 'notes', []) + ['%d heap block(s) still allocated after the destructor' % len(w.heap)]
 
 def describe(kind, s_, d, ncols, dstmode, buf, a=None, pre=None):
     if kind == 'ext': t = 'NTT_Goldilocks(%d).extendPol(N_ext=%d, N=%d, ncols=%d, %s, buffer=%s)' % (1 << s_, 1 << d, 1 << a, ncols, 'output==input' if dstmode == 'same' else 'distinct buffers', 'caller' if buf else 'NULL')
